@@ -317,6 +317,9 @@ fn proc_progress(pid: u32) -> Option<(u64, bool)> {
     }
     let stat = std::fs::read_to_string(format!("/proc/{pid}/stat")).ok()?;
     let f = fields(&stat)?;
+    if f.first().copied() == Some("Z") {
+        return None; // exited, about to be reaped: nothing to kill
+    }
     // after the command name: state is field 0, utime 11, stime 12
     let ticks = f.get(11)?.parse::<u64>().ok()? + f.get(12)?.parse::<u64>().ok()?;
     let mut runnable = false;
@@ -351,7 +354,11 @@ fn watch() -> &'static Mutex<Watch> {
             for pid in due {
                 let d = w.deadlines.get_mut(&pid).unwrap();
                 let kill = match proc_progress(pid) {
-                    None => true,
+                    None => {
+                        // the process is gone already (it exited at this very moment)
+                        w.deadlines.remove(&pid);
+                        continue;
+                    }
                     Some((ticks, runnable)) => {
                         let stalled = ticks == d.last_ticks
                             && !runnable
